@@ -122,6 +122,8 @@ pub struct ProgGen<'g, 'r> {
     helpers: Vec<Func>,
     name_ctr: u32,
     pub labels: Vec<&'static str>,
+    /// the previous function ended with a statement that leaves the flags describing this global
+    handover: Option<String>,
 }
 
 const ARR_SIZES: [usize; 5] = [2, 3, 4, 8, 16];
@@ -132,7 +134,7 @@ fn is8(t: Ty) -> bool {
 
 impl<'g, 'r> ProgGen<'g, 'r> {
     pub fn new(g: &'g mut G<'r>, cfg: GenCfg) -> Self {
-        ProgGen { g, cfg, globals: vec![], helpers: vec![], name_ctr: 0, labels: vec![] }
+        ProgGen { g, cfg, globals: vec![], helpers: vec![], name_ctr: 0, labels: vec![], handover: None }
     }
 
     fn label(&mut self, l: &'static str) {
@@ -1413,6 +1415,8 @@ impl<'g, 'r> ProgGen<'g, 'r> {
             if self.cfg.asm_menu { 6 } else { 0 },                            // inline asm
             if self.cfg.hw { 14 } else { 0 },                                 // hardware statements
             if self.cfg.opt_stress { 14 } else { 0 },                         // optimizer stress pattern
+            if can_call { 4 } else { 0 },                                     // flag-setting statement, call, test
+            3,                                                                // flag-setting statement, test
         ];
         match self.g.weighted(&w) {
             0 => vec![self.assign_stmt(fc)],
@@ -1488,8 +1492,47 @@ impl<'g, 'r> ProgGen<'g, 'r> {
             },
             10 => vec![self.asm_stmt(fc)],
             11 => self.hw_stmt(fc),
-            _ => self.stress_pattern(fc),
+            12 => self.stress_pattern(fc),
+            13 => self.flags_across_call(fc, true),
+            _ => self.flags_across_call(fc, false),
         }
+    }
+
+    /// `o--; f(); if (o) ...`: what the generator believes about the flags before a call must not
+    /// survive it (the callee, inlined or not, changes them)
+    fn flags_across_call(&mut self, fc: &mut FnCtx, with_call: bool) -> Vec<Stmt> {
+        let mut ops: Vec<(String, Ty)> = self.visible_scalars(fc, None, true);
+        ops.retain(|(n, t)| !fc.protected.contains(n) && *t != Ty::Ptr && (self.cfg.shorts || is8(*t)));
+        let c = if with_call { self.callable(fc, false) } else { vec![] };
+        if ops.is_empty() || (with_call && c.is_empty()) {
+            return vec![self.assign_stmt(fc)];
+        }
+        self.label(if with_call { "flags-across-call" } else { "flags-then-test" });
+        let (o, oty) = self.g.pick(&ops).clone();
+        let others: Vec<String> = ops.iter().filter(|(n, t)| *n != o && is8(*t)).map(|(n, _)| n.clone()).collect();
+        let s1 = match self.g.below(5) {
+            0 | 1 | 2 => Expr::IncDec(self.g.chance(1, 2), self.g.chance(1, 2), LValue::Var(o.clone())),
+            3 if !others.is_empty() => Expr::assign(LValue::Var(o.clone()), Expr::var(&self.g.pick(&others).clone())),
+            _ => Expr::Assign(Some(*self.g.pick(&[BinOp::Add, BinOp::Sub, BinOp::And, BinOp::Or])), LValue::Var(o.clone()), Box::new(Expr::lit(self.g.range(1, 9) as i32))),
+        };
+        let mut v = vec![Stmt::Expr(s1)];
+        if with_call {
+            Self::new_expr_ctx(fc);
+            let fi = *self.g.pick(&c);
+            v.push(Stmt::Expr(self.call_expr(fc, fi, 1)));
+        }
+        let cond = match self.g.below(if oty.signed() { 6 } else { 4 }) {
+            0 => Expr::var(&o),
+            1 => Expr::Un(UnOp::LNot, Box::new(Expr::var(&o))),
+            2 => Expr::bin(BinOp::Eq, Expr::var(&o), Expr::lit(0)),
+            3 => Expr::bin(BinOp::Ne, Expr::var(&o), Expr::lit(0)),
+            4 => Expr::bin(BinOp::Lt, Expr::var(&o), Expr::lit(0)),
+            _ => Expr::bin(BinOp::Ge, Expr::var(&o), Expr::lit(0)),
+        };
+        let t = if others.is_empty() { o.clone() } else { self.g.pick(&others).clone() };
+        let then = Stmt::Expr(Expr::assign(LValue::Var(t), Expr::lit(self.g.range(0, 200) as i32)));
+        v.push(Stmt::If(cond, Box::new(then), None));
+        v
     }
 
     fn body_block(&mut self, fc: &mut FnCtx) -> Stmt {
@@ -1518,7 +1561,25 @@ impl<'g, 'r> ProgGen<'g, 'r> {
         let arrs = self.arrays(fc, Some(true), true);
         let px = fc.protected.contains("X");
         let py = fc.protected.contains("Y");
-        match self.g.below(8) {
+        match self.g.below(11) {
+            8 | 9 | 10 if !arrs.is_empty() && !(px && py) => {
+                // indexed read, the index register moves, the "same" indexed operand is read again
+                let (ar, _, n) = self.g.pick(&arrs).clone();
+                let reg = if px || (!py && self.g.chance(1, 2)) { "Y" } else { "X" };
+                let i = if n > 2 { 1 + self.g.below(n - 2) as i32 } else { 0 };
+                let step = Expr::IncDec(n <= 2 || self.g.chance(1, 2), self.g.chance(1, 2), LValue::Var(reg.into()));
+                let elem = || Expr::Lv(LValue::Index(ar.clone(), Box::new(Expr::var(reg))));
+                let mut v = vec![Stmt::Expr(Expr::assign(LValue::Var(reg.into()), Expr::lit(if n <= 2 { 0 } else { i })))];
+                if self.g.chance(1, 2) {
+                    v.push(Stmt::Expr(Expr::assign(LValue::Var(a.clone()), elem())));
+                    v.push(Stmt::Expr(step));
+                    v.push(Stmt::Expr(Expr::assign(LValue::Var(b.clone()), elem())));
+                } else {
+                    let inner = vec![Stmt::Expr(step), Stmt::Expr(Expr::assign(LValue::Var(b.clone()), elem())), Stmt::Expr(Expr::assign(LValue::Var(a.clone()), Expr::lit(k)))];
+                    v.push(Stmt::If(Expr::bin(if self.g.chance(1, 2) { BinOp::Eq } else { BinOp::Ne }, elem(), Expr::lit(k)), Box::new(Stmt::Block(inner)), None));
+                }
+                v
+            }
             0 => vec![
                 Stmt::Expr(Expr::assign(LValue::Var(a.clone()), Expr::lit(k))),
                 Stmt::Expr(Expr::assign(LValue::Var(b.clone()), Expr::var(&a))),
@@ -1661,6 +1722,38 @@ impl<'g, 'r> ProgGen<'g, 'r> {
             let e = self.rvalue(&mut fc, t, 2);
             fc.scopes.pop();
             body.push(Stmt::Return(Some(e)));
+        }
+        // what one function leaves in the flags must not be believed at the entry of the next one:
+        // the previous function ended with `o--`, this one starts with a test of o
+        if let Some(o) = self.handover.take() {
+            let targets: Vec<String> =
+                self.globals.iter().filter(|g| g.kind == VarKind::Scalar && is8(g.ty) && g.name != o && !g.name.starts_with("hv")).map(|g| g.name.clone()).collect();
+            if !targets.is_empty() {
+                self.label("flags-across-functions");
+                let t = self.g.pick(&targets).clone();
+                let cond = match self.g.below(3) {
+                    0 => Expr::var(&o),
+                    1 => Expr::bin(BinOp::Eq, Expr::var(&o), Expr::lit(0)),
+                    _ => Expr::bin(BinOp::Ne, Expr::var(&o), Expr::lit(0)),
+                };
+                let test = Stmt::If(cond, Box::new(Stmt::Expr(Expr::assign(LValue::Var(t), Expr::lit(self.g.range(0, 200) as i32)))), None);
+                let first_non_decl = body.iter().position(|s| !matches!(s, Stmt::Decl(_))).unwrap_or(body.len());
+                body.insert(first_non_decl, test);
+            }
+        }
+        if ret.is_none() && self.g.chance(1, 4) {
+            let mut ops: Vec<String> =
+                self.globals.iter().filter(|g| g.kind == VarKind::Scalar && is8(g.ty) && !g.name.starts_with("hv")).map(|g| g.name.clone()).collect();
+            ops.push("X".into());
+            ops.push("Y".into());
+            let o = self.g.pick(&ops).clone();
+            let s1 = match self.g.below(3) {
+                0 => Expr::IncDec(false, false, LValue::Var(o.clone())),
+                1 => Expr::IncDec(true, false, LValue::Var(o.clone())),
+                _ => Expr::assign(LValue::Var(o.clone()), Expr::lit(self.g.range(0, 2) as i32)),
+            };
+            body.push(Stmt::Expr(s1));
+            self.handover = Some(o);
         }
         let inline = !is_main && self.cfg.inline_permille > 0 && self.g.chance(self.cfg.inline_permille, 1000);
         Func { name, ret, params, body, inline, interrupt: false, proto: false }
